@@ -21,7 +21,7 @@ from ..harness import Evidence, run_pool, finish
 from ..hdr import dwarf_constants
 
 PID = "C06"
-RULE = ("generated forests (<= 6 units, <= 40 DIEs, import graphs nested <= 4, inheritance chains <= 8 hops with shadowing) and "
+RULE = ("generated forests (<= 6 units, <= 40 DIEs, import graphs nested <= 4, inheritance chains with shadowing, link trees, chains of 15-40 links, cross-unit chains whose far end carries DW_AT_decl_file (per-unit line tables)) and "
         "the ELF samples of /repo/tests; every DIE: cooked unit list, cooked children, cooked attribute list vs the model; "
         "every (DIE, attribute name) for names occurring in the file + 6 absent ones: the @AT_x / ?AT_x / name laws; every tag "
         "and form constant of the vocabulary occurring in the file + absent ones: ?TAG_x / ?FORM_x laws; raw and cooked.  "
@@ -191,7 +191,7 @@ def work_gen(task):
             if len(ev.violations) >= 30:
                 break       # verdict settled
             rnd = random.Random((seed << 32) ^ (i * 2654435761 & 0xffffffff) ^ 0xC06)
-            g = DF.ForestGen(rnd, DF.FCfg(max_units=rnd.choice([2, 4, 6]), max_dies=rnd.choice([12, 40]), partial=0.7))
+            g = DF.ForestGen(rnd, DF.FCfg(max_units=rnd.choice([2, 4, 6]), max_dies=rnd.choice([12, 40]), partial=0.7, long_chains=0.08))
             f = g.forest()
             data = build_file(f)
             try:
@@ -239,7 +239,7 @@ def work_gen(task):
                                       "reason": "driver crashed: " + e.report[-3000:], "signature": "C06:crash:%d" % i})
             except DriverTimeout:
                 ev.inconc("watchdog")
-            for l in ("inherit-link", "both-links", "link-tree", "import-edge"):
+            for l in ("inherit-link", "both-links", "link-tree", "import-edge", "long-chain", "cross-unit-chain", "decl-file"):
                 if g.labels.get(l):
                     ev.label("gen:" + l, g.labels[l])
     finally:
@@ -300,6 +300,8 @@ def main(tier, seed):
                                "reference chains are acyclic and <= 8 hops (libdw's own integration stops after 16)"],
                   health={"inheritance links generated": ev.labels.get("gen:inherit-link", 0) > 200,
                           "two-link trees generated": ev.labels.get("gen:link-tree", 0) > 20,
+                          "long chains generated": ev.labels.get("gen:long-chain", 0) > 10,
+                          "cross-unit chains with decl_file": ev.labels.get("gen:cross-unit-chain", 0) > 20,
                           "laws checked": ev.labels.get("law:@AT", 0) > 500 and ev.labels.get("law:?TAG", 0) > 200 and ev.labels.get("law:?FORM", 0) > 200,
                           "samples": ev.labels.get("sample:cooked", 0) >= 8})
 
